@@ -1,10 +1,9 @@
 use bytes::Bytes;
 use bytesstr::BytesStr;
 use internal::{ws, IResult};
-use nom::branch::alt;
 use nom::bytes::complete::{tag, take_while1};
 use nom::character::complete::{char, digit1};
-use nom::combinator::{map, map_res, not, opt, peek};
+use nom::combinator::{all_consuming, map, map_res, not, opt, peek};
 use nom::error::context;
 use nom::multi::{separated_list0, separated_list1};
 use nom::sequence::{preceded, separated_pair, terminated, tuple};
@@ -97,14 +96,11 @@ macro_rules! suite {
                 move |i| {
                     context(
                         "parsing srtp suite",
-                        alt((
-                            $(
-                            map(tag(stringify!($suite)), |_| Self::$suite),
-                            )*
-                            map(take_while1(is_alphanumeric_or_underscore), move |suite| {
-                                Self::Ext(BytesStr::from_parse(src, suite))
-                            }),
-                        )),
+                        // match the complete token, `AEAD_AES_128_GCM_8` is not `AEAD_AES_128_GCM`
+                        map(take_while1(is_alphanumeric_or_underscore), move |suite| match suite {
+                            $(stringify!($suite) => Self::$suite,)*
+                            _ => Self::Ext(BytesStr::from_parse(src, suite)),
+                        }),
                     )(i)
                 }
             }
@@ -191,33 +187,40 @@ pub enum SrtpFecOrder {
 
 impl SrtpSessionParam {
     pub fn parse(src: &Bytes) -> impl Fn(&str) -> IResult<&str, Self> + '_ {
-        move |i| {
-            context(
-                "parsing srtp-session-param",
-                alt((
-                    map(preceded(tag("KDR="), number), Self::Kdr),
-                    map(tag("UNENCRYPTED_SRTP"), |_| Self::UnencryptedSrtp),
-                    map(tag("UNENCRYPTED_SRTCP"), |_| Self::UnencryptedSrtcp),
-                    map(tag("UNAUTHENTICATED_SRTP"), |_| Self::UnauthenticatedSrtp),
-                    preceded(
-                        tag("FEC_ORDER="),
-                        alt((
-                            map(tag("FEC_SRTP"), |_| Self::FecOrder(SrtpFecOrder::FecSrtp)),
-                            map(tag("SRTP_FEC"), |_| Self::FecOrder(SrtpFecOrder::SrtpFec)),
-                        )),
-                    ),
-                    map(
-                        preceded(tag("FEC_KEY="), parse_srtp_key_params(src)),
-                        Self::FecKey,
-                    ),
-                    map(preceded(tag("WSH="), number), Self::WindowSizeHint),
-                    map(
-                        preceded(peek(not(char('-'))), take_while1(is_visible_char)),
-                        |ext| Self::Ext(BytesStr::from_parse(src, ext)),
-                    ),
-                )),
-            )(i)
-        }
+        move |i| context("parsing srtp-session-param", |i| Self::parse_token(src, i))(i)
+    }
+
+    fn parse_token<'i>(src: &Bytes, i: &'i str) -> IResult<&'i str, Self> {
+        // A session parameter is a single token, it is inspected as a whole
+        // so that e.g. `UNENCRYPTED_SRTPX` is not taken for `UNENCRYPTED_SRTP`
+        let (rem, token) = preceded(peek(not(char('-'))), take_while1(is_visible_char))(i)?;
+
+        let complete_number = |n: &str| all_consuming(number)(n).ok().map(|(_, n)| n);
+
+        let param = if let Some(n) = token.strip_prefix("KDR=").and_then(complete_number) {
+            Self::Kdr(n)
+        } else if token == "UNENCRYPTED_SRTP" {
+            Self::UnencryptedSrtp
+        } else if token == "UNENCRYPTED_SRTCP" {
+            Self::UnencryptedSrtcp
+        } else if token == "UNAUTHENTICATED_SRTP" {
+            Self::UnauthenticatedSrtp
+        } else if token == "FEC_ORDER=FEC_SRTP" {
+            Self::FecOrder(SrtpFecOrder::FecSrtp)
+        } else if token == "FEC_ORDER=SRTP_FEC" {
+            Self::FecOrder(SrtpFecOrder::SrtpFec)
+        } else if let Some((_, keys)) = token
+            .strip_prefix("FEC_KEY=")
+            .and_then(|keys| all_consuming(parse_srtp_key_params(src))(keys).ok())
+        {
+            Self::FecKey(keys)
+        } else if let Some(n) = token.strip_prefix("WSH=").and_then(complete_number) {
+            Self::WindowSizeHint(n)
+        } else {
+            Self::Ext(BytesStr::from_parse(src, token))
+        };
+
+        Ok((rem, param))
     }
 }
 
